@@ -370,6 +370,7 @@ def run_case(case: dict) -> dict:
         starts = {}
         rets = {}
         seen_slots = {}
+        awaited = set()
         errors = [(c, p) for c in range(nclients) for m, p in sim.clients[c].inbox if m.name == 'ERROR']
         consequences = []        # findings that a D7 double wake explains
 
@@ -384,6 +385,12 @@ def run_case(case: dict) -> dict:
                 rets[rec[1]] = rec[2]
             elif rec[0] == 'obs':
                 _, nid, f, kind, value = rec
+                if malformed and (nid, f) in awaited:
+                    # API misuse (future awaited again after its mailbox was consumed): the runtime answered
+                    # with an ERROR; a body that is stepped once more (stale D7 wake-up) sees send(None)
+                    continue
+                if kind == 'await':
+                    awaited.add((nid, f))
                 kids = info[nid]['futs'][f]
                 exp = [info[c]['ret'] for c in kids]
                 single = not any(c[0] == 'map' for c in [x for x in info[nid]['script'] if x[0] in ('sub', 'map')][f:f + 1])
@@ -392,7 +399,7 @@ def run_case(case: dict) -> dict:
                     if value != want:
                         if split_handler and (value is None or (isinstance(value, list) and None in value)):
                             add({'call': 'deposit_result', 'symptom': 'value-read-before-stored'},
-                                'await on future %d of task %d returned None: the main thread saw box.ready after `num_results += 1` and before the value was stored' % (f, nid), want, value)
+                                'await on future %d of task %d returned None: the main thread saw box.ready after the result was counted and before it was stored' % (f, nid), want, value)
                         else:
                             add({'call': 'await', 'symptom': 'wrong-value'}, 'await on future %d of task %d' % (f, nid), want, value)
                 else:
@@ -457,7 +464,11 @@ def run_case(case: dict) -> dict:
                 'one wake-up', dict(double_wakes=d7_hits, consequences=[c['sig']['symptom'] for c in consequences]))
         elif consequences:
             res['findings'] += consequences           # not explained by a D7 double wake: report
-        res['stats'] = dict(events=nev, tasks=len(info), d7=d7_hits, errors=len(errors),
+        if case.get('require_split') and not split_handler:
+            add({'call': 'harness', 'symptom': 'deposit-gate-not-reached'},
+                'the schedule never parked a receiving thread inside WorkerMailbox.deposit_result (its shape changed?)',
+                'a RESULT handled in two halves around a main-thread step', 'handler ran in one piece')
+        res['stats'] = dict(events=nev, tasks=len(info), d7=d7_hits, errors=len(errors), split_handler=int(split_handler),
                             started=sum(starts.values()), finished=len(rets),
                             obs=sum(1 for r in log if r[0] == 'obs'))
         res['sample'] = dict(k=k, fine=fine, tasks=len(info), events=nev, root=mfmt(roots[0]['script'])[:160],
@@ -500,7 +511,8 @@ def make_cases(ctx, n):
         fine = rng.random() < 0.7
         weights = dict(main=rng.choice([1, 1, 3, 6]), recv=rng.choice([1, 3, 6]), server=rng.choice([1, 3, 6]))
         cases.append(dict(k=k, roots=roots, seed=rng.randrange(1 << 30), fine=fine, weights=weights,
-                          policy='d7' if (fine and rng.random() < 0.1) else None, malformed=malformed))
+                          policy=(lambda r: 'd7' if (fine and r < 0.1) else 'd7b' if (fine and k >= 2 and r < 0.17) else None)(rng.random()),
+                          malformed=malformed))
     return cases
 
 
@@ -516,6 +528,8 @@ def report(ctx, case, res, source):
     ctx.count('awaits+nexts observed', st.get('obs', 0))
     if st.get('d7'):
         ctx.count('runs with a D7 double wake')
+    if st.get('split_handler'):
+        ctx.count('runs with a RESULT handler split inside deposit_result')
     if st.get('retried_after_gate_timeout'):
         ctx.count('cases retried after a gate timeout')
     if 'sample' in res:
@@ -556,13 +570,13 @@ def run(ctx: vf.Ctx):
     cases += make_cases(ctx, ctx.n(700, 12000))
     import rtsim  # noqa: F401  import bqskit once, before forking (no threads exist yet)
     t0 = time.time()
-    budget = float(os.environ.get("C07_BUDGET", 0)) or ctx.n(80, 1500)
+    budget = float(os.environ.get("C07_BUDGET", 0)) or ctx.n(60, 1500)
     min_cases = ncorpus + (int(os.environ.get("C07_MIN", 0)) or ctx.n(150, 1500))   # never fewer, however loaded the box is
     hard = ctx.n(900, 7200)
     bad = False
     done = 0
     retry = []
-    with mp.get_context('fork').Pool(min(12, os.cpu_count() or 4)) as pool:
+    with mp.get_context('fork').Pool(min(8, os.cpu_count() or 4)) as pool:
         it = pool.imap(_pool_run, cases, chunksize=1)
         while True:
             try:
@@ -629,7 +643,7 @@ def run(ctx: vf.Ctx):
         extra = make_cases(ctx, 300)
         for c in extra:
             c['fine'], c['policy'] = True, 'd7'
-        with mp.get_context('fork').Pool(min(12, os.cpu_count() or 4)) as pool:
+        with mp.get_context('fork').Pool(min(8, os.cpu_count() or 4)) as pool:
             for case, res in pool.imap(_pool_run, extra, chunksize=4):
                 report(ctx, case, res, 'directed-search')
 
